@@ -51,6 +51,10 @@ type c11Case struct {
 	// in the case of one letter (Sirupsen / sirupsen): another path, which
 	// the patch does not mention. Nothing applies.
 	FileCase bool `json:"file_case,omitempty"`
+	// ExprMeta (name form "meta", the file names the import): the
+	// metavariable that names the import is declared "expression". It
+	// still stands for the name the file uses.
+	ExprMeta bool `json:"expr_meta,omitempty"`
 }
 
 // c11Paths returns the subject path, the path that replaces it, and the
@@ -102,7 +106,11 @@ func c11Build(cs *c11Case) (patch, file string, ex c11Expect) {
 	var p strings.Builder
 	p.WriteString("@@\n")
 	if cs.NameForm == "meta" {
-		p.WriteString("var oldp identifier\n")
+		if cs.ExprMeta {
+			p.WriteString("var oldp expression\n")
+		} else {
+			p.WriteString("var oldp identifier\n")
+		}
 	}
 	p.WriteString("var x expression\n@@\n")
 	imp := func(name, path string) string {
@@ -506,6 +514,9 @@ func c11Draw(rt *rapid.T) *c11Case {
 		if cs.FileName == "" {
 			cs.FileName = "custom"
 		}
+	}
+	if cs.NameForm == "meta" && cs.FileName != "" && cs.FileName != "_" && cs.FileName != "." {
+		cs.ExprMeta = rapid.IntRange(0, 4).Draw(rt, "exprMeta") == 0
 	}
 	n := rapid.IntRange(0, 8).Draw(rt, "nBy")
 	usedNames := map[string]bool{c11PkgName(cs.FileName, c11Old, ""): true, "newp": true, "addp": true, "adq": true, "secp": true, "oldp": true, "yaml": true, "codec": true, "custom": true}
